@@ -178,6 +178,59 @@ def run(E: Engine, rep: Report, tier: str) -> dict:
         rep.check(ok, "FLOW", f"Sequence.{nm}|records-computed-detuning_off", "the recorded optimal_detuning_off is the value computed by _process_eom_parameters",
                   f"{nm} no longer records the computed detuning_off (a rebuilt/deserialised sequence could pick a different off-detuning)", E.where(m))
     rep.floor("FLOW", 2)
+    # ---- document alternatives: the three PulserSequence alternatives (2D / 3D / mappable register) differ only in
+    # the register (and the layout requirement); every top-level key the serializer can emit is allowed in each
+    seq_sch = P.schemas.get("sequence-schema.json", {})
+    alts = [a for a in seq_sch.get("definitions", {}).get("PulserSequence", {}).get("anyOf", []) if isinstance(a, dict) and "properties" in a]
+    if len(alts) < 2:
+        raise AnalysisError("anchor: PulserSequence.anyOf alternatives not found in sequence-schema.json")
+    top = set()
+    for b in branches:
+        top |= {k for k in b.top_keys if isinstance(k, str)}
+    top |= {k for k in sx.static_top_keys()} if hasattr(sx, "static_top_keys") else set()
+    union = set().union(*[set(a["properties"]) for a in alts])
+    for i, a in enumerate(alts):
+        props = set(a["properties"])
+        rep.check(props == union, "TABLE", f"schema|PulserSequence.anyOf[{i}]|same-properties-as-siblings", f"{len(props)} properties in every alternative", f"alternative {i} of PulserSequence lacks {sorted(union - props)} which its sibling alternatives allow (additionalProperties is false: such documents are rejected for this register kind only)", sch_where)
+        rep.check(top <= props, "TABLE", f"schema|PulserSequence.anyOf[{i}]|serializer-top-keys-allowed", "every top-level key the serializer emits per call is a property", f"the serializer can emit top-level key(s) {sorted(top - props)} that alternative {i} of PulserSequence does not allow", sch_where)
+    # ---- an argument whose default is None is tested with `is not None` (0 / "" are legal values)
+    from .. import sym
+    from .symutil import S, is_, sh, unobj
+
+    none_default = {}
+    for nm, m in rec.items():
+        for pn, dv in m.param_defaults().items():
+            if isinstance(dv, ast.Constant) and dv.value is None:
+                none_default.setdefault(pn, set()).add(nm)
+    Sser = S(E, ser_f)
+    n_nd = 0
+    for l in Sser.logged("test"):
+        for lit in ([l.value] if l.value[0] not in ("and", "or") else list(l.value[1:])):
+            t = lit[1] if lit[0] == "not" else lit
+            if t[0] == "idx" and t[2][0] == "const" and t[2][1] in none_default:
+                n_nd += 1
+                rep.violation("GUARD", f"serialize_abstract_sequence|{t[2][1]}|presence-tested-by-truthiness", f"`{sh(t, 60)}` is tested for truthiness, but `{t[2][1]}` (default None in {sorted(none_default[t[2][1]])}) may legitimately be 0 or an empty string: the argument is then dropped from the serialised sequence; test `is not None`", E.where(ser_f, l.node))
+            m_ = is_(lit, "Q_v is not None") or is_(lit, "Q_v is None")
+            if m_ is not None and m_["Q_v"][0] == "idx" and m_["Q_v"][2][0] == "const" and m_["Q_v"][2][1] in none_default:
+                n_nd += 1
+                rep.ok("GUARD", f"serialize_abstract_sequence|{m_['Q_v'][2][1]}|presence-tested-by-is-None", "optional argument tested with `is (not) None`", E.where(ser_f, l.node))
+    if n_nd < 1:
+        rep.error("no presence test of a None-default argument found in the serializer (expected at least initial_target)")
+    # ---- default filling: `if A[k] is None: B[k] = default` must test and fill the same mapping
+    n_df = 0
+    for f in (E.method("pulser.parametrized.paramobj.ParamObj", "_to_abstract_repr"), ser_f):
+        for l in S(E, f).logged("store"):
+            if l.target is None or l.target[0] != "idx" or l.target[2][0] != "const":
+                continue
+            k = l.target[2]
+            for x in sym.conj_of(l.cond):
+                m_ = is_(x, "Q_d[Q_k] is None", {"Q_k": k})
+                if m_ is None:
+                    continue
+                n_df += 1
+                same = unobj(m_["Q_d"]) == unobj(l.target[1]) or m_["Q_d"] == l.target[1]
+                rep.check(same, "GUARD", f"{f.short}|default-filled-where-tested|{k[1]}", f"`[{k[1]!r}] is None` is tested on the mapping that receives the default", f"{f.short}: the default for '{k[1]}' is stored into `{sh(l.target[1], 60)}` under a test of `{sh(m_['Q_d'], 60)}[{k[1]!r}] is None` -- a value present only in the former (e.g. passed positionally) is overwritten by the default", E.where(f, l.node))
+    rep.floor("GUARD", 2)
     # ARGS: the serializer reads recorded positional arguments only where they must be positional
     from .. import callargs
 
